@@ -151,15 +151,20 @@ OnlyNamedTouched ==
 (* ---------------- dispatch by message kind (command/run configureHeadersModifiers) ---------------- *)
 \* which of the three rule lists are configured, and the marker field each list adds
 Marker(k) == CASE k = "req" -> <<"x","-","b">> [] k = "con" -> <<"a","b">> [] k = "res" -> <<"a","b","c">>
-DCases == [kind : {"request", "connect", "response", "connect-response"}, req : BOOLEAN, con : BOOLEAN, res : BOOLEAN]
+\* pre: the message arrives already carrying one field under each marker name (value "c"): a rule appends to it
+DCases == [kind : {"request", "connect", "response", "connect-response"}, req : BOOLEAN, con : BOOLEAN, res : BOOLEAN, pre : BOOLEAN]
 RL(on, k) == IF on THEN << Rule("add", Marker(k), <<"v">>) >> ELSE <<>>
-DOut(c) == Dispatch(c.kind, RL(c.req, "req"), RL(c.con, "con"), RL(c.res, "res"), <<>>)
-\* names of the markers the message must carry after processing
-DMarkers(c) == { k \in {"req", "con", "res"} : \E i \in 1..Len(DOut(c)) : DOut(c)[i].n = LowerSeq(Marker(k)) }
+DPre(c) == IF c.pre THEN << F(Marker("req"), <<"c">>), F(Marker("con"), <<"c">>), F(Marker("res"), <<"c">>) >> ELSE <<>>
+DOut(c) == Dispatch(c.kind, RL(c.req, "req"), RL(c.con, "con"), RL(c.res, "res"), DPre(c))
+\* names of the markers a rule has put on the message
+DMarkers(c) == { k \in {"req", "con", "res"} : \E i \in 1..Len(DOut(c)) : DOut(c)[i].n = LowerSeq(Marker(k)) /\ DOut(c)[i].v = <<"v">> }
+\* the values the message carries under each marker name after processing, in order
+DVals(c) == [k \in {"req", "con", "res"} |-> ValSeq(DOut(c), LowerSeq(Marker(k)))]
 DispatchSane == \A c \in DCases : /\ (c.kind = "connect-response" => DMarkers(c) = {})
                                    /\ Cardinality(DMarkers(c)) <= 1
+                                   /\ (c.pre => \A k \in {"req", "con", "res"} : Head(DVals(c)[k]) = <<"c">>)   \* an add rule never drops what was there
 DispatchSaneInv == DispatchSane
-EmitDispatch == \A c \in DCases : PrintT(ToJson([dispatch |-> c, markers |-> DMarkers(c)]))
+EmitDispatch == \A c \in DCases : PrintT(ToJson([dispatch |-> c, markers |-> DMarkers(c), vals |-> DVals(c)]))
 
 EmitParse == mode = "parse" => PrintT(ToJson([s |-> s, doc |-> Doc(s)]))
 EmitApply == mode = "apply" =>
